@@ -34,22 +34,33 @@ def authorize_paths(ctx, rep):
 
 def path_inputs(ctx, r):
     """z3 handles of the inputs of authorize() on path r (arguments are rebuilt per path with stable meaning)."""
-    ent = [e for e in r.events if e.kind == "enter" and e.callee.endswith("get_authorizer")]
-    if not ent:
-        raise Inconclusive("authorize() does not call get_authorizer on some path")
-    ip, port, claims = ent[0].args[0], ent[0].args[1], ent[0].args[2]
+    # authorize(ip, port, logger, request_uri, claims, rules): the inputs are its own arguments, whether or not a path goes on to
+    # get_authorizer (a path that decides without consulting the destination's authorizer is exactly what must be examined)
+    ip, port, claims = r.args[0], r.args[1], r.args[4]
     ipz = origin(ip).string() if isinstance(origin(ip), Sym) else None
     portz = origin(port).scalar("u16")
     elev = origin(claims).child(("f", ctx.field("Claims", "runAsElevated")), "bool").scalar("bool")
     return ipz, portz, elev
 
 
+def url_path_of(r, zm):
+    """the request path the model chose (value of Uri::path(request_uri) on this path), if the path reads it"""
+    for e in r.events:
+        if e.kind == "call" and e.callee.endswith("Uri::path") and e.rargs and (same_origin(e.rargs[0], r.args[3]) or is_part_of(origin(e.rargs[0]), origin(r.args[3]))):
+            try:
+                v = zm.eval(e.ret.string(), model_completion=True)
+                return v.as_string()
+            except Exception:
+                return None
+    return None
+
+
 def concretize(ctx, r, zm):
     """Concrete (rules present?, rule decision, mode) of a counterexample model on path r."""
     ent = [e for e in r.events if e.kind == "enter" and e.callee.endswith("::authorize") and len(e.args) == 4]
     present, allowed, mode = False, True, "enforce"
-    if ent:
-        rules = origin(ent[0].args[3])
+    if ent or len(r.args) > 5:
+        rules = origin(ent[0].args[3]) if ent else origin(r.args[5])
         if isinstance(rules, Sym):
             present = zm.eval(rules.discr(), model_completion=True).as_long() == 1
             some = rules.child(("v", "Some", 0))
@@ -90,6 +101,10 @@ def ret_discr(ctx, r):
 def check(rep, tier, seed):
     ctx = Ctx("agent")
     rep.extra["mir_dump"] = {"cache_hit": ctx.dump.cache_hit, "tree_hash": ctx.dump.hash, "seconds": round(ctx.dump.seconds, 1)}
+    check_authorize(rep, ctx)
+
+
+def check_authorize(rep, ctx):
     eng, paths = authorize_paths(ctx, rep)
     FORB = ctx.enums["AuthorizeResult"].index("Forbidden")
     OK = ctx.enums["AuthorizeResult"].index("Ok")
@@ -114,7 +129,7 @@ def check(rep, tier, seed):
                 present, allowed, mode = concretize(ctx, r, bad[2])
                 tn = "c03_path%d_%s" % (i, label.lower())
                 cases.append((tn, replay.authorize_case(tn, ipc, port, False, present, allowed, mode, "r == AuthorizeResult::Forbidden",
-                                                        "non-elevated caller to %s must be Forbidden" % label), qn))
+                                                        "non-elevated caller to %s must be Forbidden" % label, url_path=url_path_of(r, bad[2])), qn))
                 models.append(bad[0]); dts.append(bad[1])
         prem = z3.And(ipz == z3.StringVal("127.0.0.1"), portz == 3080)
         qn = "path %d: destination = proxy listener => Forbidden (any caller)" % i
@@ -124,7 +139,7 @@ def check(rep, tier, seed):
             el = z3.is_true(bad[2].eval(elev, model_completion=True))
             tn = "c03_path%d_self" % i
             cases.append((tn, replay.authorize_case(tn, "127.0.0.1", 3080, el, present, allowed, mode, "r == AuthorizeResult::Forbidden",
-                                                    "a request whose destination is the proxy listener must be Forbidden"), qn))
+                                                    "a request whose destination is the proxy listener must be Forbidden", url_path=url_path_of(r, bad[2])), qn))
             models.append(bad[0]); dts.append(bad[1])
         if d == OK:
             witness_elev_ok.append(z3.And(r.pc + [ipz == z3.StringVal(WS), portz == 80, elev]))
